@@ -507,6 +507,13 @@ impl GrafeoDB {
         &self.store
     }
 
+    /// Verification hook H5: access to the transaction manager shared by all sessions.
+    #[cfg(grafeo_verif)]
+    #[must_use]
+    pub fn verif_tx_manager(&self) -> &Arc<TransactionManager> {
+        &self.tx_manager
+    }
+
     /// Returns the buffer manager for memory-aware operations.
     #[must_use]
     pub fn buffer_manager(&self) -> &Arc<BufferManager> {
